@@ -31,6 +31,7 @@ func init() {
 			{Name: "models", N: constN(6000, 200000), Gen: genModelCase, Eval: c09EvalModel},
 			{Name: "bodyless", N: constN(6000, 150000), Gen: c09GenBodyless, Eval: c09Eval},
 			{Name: "references", N: constN(4000, 100000), Gen: c09GenReferences, Eval: c09Eval},
+			{Name: "tag-name-collisions", N: constN(4000, 100000), Gen: c09GenTagCollisions, Eval: c09Eval},
 		},
 		Floors: map[string]int64{"accepted": 3000},
 	})
@@ -463,5 +464,79 @@ func c09GenReferences(r *xrand.Rand, idx int, tier string) *fw.Case {
 	}
 	c := oneDocCase([]byte(sb.String()), "", "reference spellings")
 	c.Meta = map[string]string{"class": fmt.Sprintf("refs host%d", host)}
+	return c
+}
+
+
+// c09GenTagCollisions: declared tags whose names are the names automatic path tags get (@cats for /cats, @a__b for /a_b,
+// @_ for /), used explicitly by some interactions while others on those paths have no Tags: whatever the library does
+// with the coincidence, tags and interactions must keep referring to each other.
+func c09GenTagCollisions(r *xrand.Rand, idx int, tier string) *fw.Case {
+	segs := []string{"cats", "dogs", "a_b", "a__b", "x.y"}
+	auto := map[string]string{"cats": "@cats", "dogs": "@dogs", "a_b": "@a__b", "a__b": "@a____b", "x.y": "@x.y"}
+	var blocks []string
+	var declared []string
+	for _, sg := range segs {
+		if r.Chance(1, 2) {
+			name := auto[sg]
+			if r.Chance(1, 6) {
+				name = "@_" // the automatic name of the root path
+			}
+			b := "TAG " + name
+			if r.Bool() {
+				b += " // Title of " + sg
+			}
+			b += "\n"
+			if r.Chance(1, 3) {
+				b += "  Description\n    about " + sg + "\n"
+			}
+			dup := false
+			for _, d := range declared {
+				if d == name {
+					dup = true
+				}
+			}
+			if !dup {
+				declared = append(declared, name)
+				blocks = append(blocks, b)
+			}
+		}
+	}
+	if len(declared) == 0 {
+		declared = append(declared, "@cats")
+		blocks = append(blocks, "TAG @cats\n")
+	}
+	verbs := []string{"GET", "POST", "PUT", "DELETE"}
+	n := r.Range(2, 6)
+	for i := 0; i < n; i++ {
+		sg := segs[r.Intn(len(segs))]
+		path := fmt.Sprintf("/%s/p%d", sg, i)
+		if r.Chance(1, 8) {
+			path = "/"
+		}
+		tags := ""
+		if r.Chance(1, 2) {
+			tags = "  Tags " + declared[r.Intn(len(declared))] + "\n"
+		}
+		switch r.Intn(3) {
+		case 0:
+			blocks = append(blocks, verbs[i%4]+" "+path+"\n"+tags+"  200 any\n")
+		case 1:
+			ut := ""
+			if r.Chance(1, 3) {
+				ut = "  Tags " + declared[r.Intn(len(declared))] + "\n"
+			}
+			blocks = append(blocks, "URL "+path+"\n"+ut+"  "+verbs[i%4]+"\n  "+tags+"    200 any\n")
+		default:
+			blocks = append(blocks, "URL "+path+"\n  Protocol json-rpc-2.0\n  Method m\n  "+tags+"    Params\n    {}\n")
+		}
+	}
+	var sb strings.Builder
+	sb.WriteString("JSIGHT 0.3\n")
+	for _, i := range r.Perm(len(blocks)) {
+		sb.WriteString(blocks[i])
+	}
+	c := oneDocCase([]byte(sb.String()), "", "declared tags named like automatic ones")
+	c.Meta = map[string]string{"class": "tag-collisions"}
 	return c
 }
